@@ -41,7 +41,7 @@ def cases(seed, tier):
         out.append({"gen": "cube_features", "seed": rng.randrange(2 ** 31), "singu": ["far", "many", "adjacent", "face", "many"][i % 5], "features": True, "max_size": 5})
     for i in range(n // 6):
         out.append({"gen": "folded", "seed": rng.randrange(2 ** 31), "singu": ["empty", "one", "far", "many", "border", "adjacent"][i % 6], "features": False,
-                    "shape": ["sheet_diagonal", "flattened_sphere", "sheet_diagonal", "flattened_torus"][i % 4], "max_size": 5})
+                    "shape": ["sheet_diagonal", "flattened_sphere", "collapsed_to_a_point", "flattened_torus", "pinched_ribbon"][i % 5], "max_size": 5})
     return out
 
 
@@ -86,6 +86,24 @@ def _folded(rng, shape):
         up = V[:, 1] > V[:, 0]
         W[up, 0], W[up, 1] = V[up, 1], V[up, 0]
         return W, F, "folded_sheet"
+    if shape == "collapsed_to_a_point":
+        # every vertex at the same position: all edge lengths are exactly 0 (the statement is about the combinatorics of the surface)
+        n = rng.randint(3, 6)
+        V, F, _ = surfaces.grid(n, n, "tri", rng)
+        return np.zeros((len(V), 3)) + np.array([0.5, -1.0, 2.0]), F, "collapsed_to_a_point"
+    if shape == "pinched_ribbon":
+        # a 1 x k ribbon whose two long sides meet at one rung (two coincident vertices joined by an edge of length 0)
+        k = rng.randint(4, 9)
+        V, F, _ = surfaces.grid(k, 1, "tri", rng)
+        V = np.array([[float(i), float(j), 0.0] for i in range(k + 1) for j in range(2)]) if len(V) == 2 * (k + 1) else np.asarray(V, float)
+        pts = {}
+        for idx, p_ in enumerate(V):
+            pts.setdefault(round(float(p_[0]), 9), []).append(idx)
+        rung = sorted(pts)[rng.randrange(1, len(pts) - 1)]
+        if len(pts[rung]) == 2:
+            a_, b_ = pts[rung]
+            V[b_] = V[a_]
+        return V, F, "pinched_ribbon"
     if shape == "flattened_sphere":
         V, F, _ = surfaces.sphere(rng.choice([1, 2]), "octa")
         V = np.round(np.asarray(V, float) * 64) / 64  # dyadic coordinates: mirror images agree bit for bit
@@ -304,6 +322,25 @@ def run_case(desc, ctx):
                       n=len(seg), want=len(want))
             ctx.check(selected == {tuple(Vf[s_]) for s_ in singus}, "cutgraph", "export", "selection_is_not_the_singular_vertices",
                       "the 'selection' attribute of cut_graph does not mark exactly the singular vertices", n=len(selected), want=len(singus))
+    # 6. history: the reported cut is handed to a face spanning tree as its set of edges not to cross (what the library's own parametrisation
+    #    code does with it); afterwards the cutter must still report the same cut, and the tree must have reached every face without crossing it
+    import mouette as M
+    ok, tr = ctx.call("FaceSpanningTree_over_cut_edges", lambda: M.processing.trees.FaceSpanningTree(m, 0, cutter.cut_edges)(), monitor="cutgraph", abort=False)
+    if ok:
+        ctx.obs("cutgraph", "face_tree_over_cut")
+        try:
+            after = {int(e) for e in cutter.cut_edges}
+            reached = sum(1 for f in range(len(F)) if f == 0 or tr.parent[f] is not None)
+        except Exception:
+            after, reached = None, -1
+        if after != cut_edges:
+            ctx.violation("cutgraph", "face_tree_over_cut", "reported_cut_edges_changed_by_a_face_tree_that_was_given_them",
+                          "after a face spanning tree was built with the reported cut edges as the edges not to cross, the cutter reports another set of cut edges",
+                          before=len(cut_edges), after=None if after is None else len(after))
+        elif reached != len(F):
+            ctx.violation("cutgraph", "face_tree_over_cut", "faces_not_connected_without_crossing_the_cut",
+                          "a face spanning tree that does not cross the reported cut edges does not reach every face, although the cut mesh is one disk",
+                          reached=reached, faces=len(F))
     if len(F) <= 8:
         ctx.sample({"faces": F, "singularities": singus, "cut_edges": sorted(edges[e] for e in cut_edges), "cut_mesh_faces": Fo})
     # history: a second cut of the SAME mesh object (same feature detector) with another singularity set must again give a disk
